@@ -414,8 +414,9 @@ Fixpoint added (a b : node) (here : list comp) {struct b} : list (list comp * bo
 Definition parent_locs (decls : list (string * list comp)) : list (list comp) :=
   flat_map (fun pl => match snd pl with [] => [] | _ :: _ => [removelast (snd pl)] end) decls.
 
-(* P for CreateParentDirectories: "" or the kind of violation. *)
-Definition p_parents (c : command) (pre : entries) (ok : bool) (mid : entries) : string :=
+(* P for CreateParentDirectories, part 1 (frame): the input root is not
+   damaged and nothing but ancestors of declared outputs is created. *)
+Definition p_parents_frame (c : command) (pre : entries) (mid : entries) : string :=
   match declared c with
   | None => ""
   | Some decls =>
@@ -423,12 +424,28 @@ Definition p_parents (c : command) (pre : entries) (ok : bool) (mid : entries) :
     if negb (extends (Dir pre) (Dir mid)) then "input-root-damaged"
     else if negb (forallb (fun a => snd a && existsb (is_prefix (fst a)) plocs) (added (Dir pre) (Dir mid) []))
          then "created-something-else"
-    else if forallb (clear pre) plocs then
+    else ""
+  end.
+
+(* Part 2 (existence): unless the input root has a non-directory on the way,
+   there is no error and every declared output's parent is a directory. *)
+Definition p_parents_exist (c : command) (pre : entries) (ok : bool) (mid : entries) : string :=
+  match declared c with
+  | None => ""
+  | Some decls =>
+    let plocs := parent_locs decls in
+    if forallb (clear pre) plocs then
       if negb ok then "parents-error"
       else if negb (forallb (fun pl => match probe mid pl with Found (Dir _) => true | _ => false end) plocs)
            then "parent-missing"
       else ""
     else ""
+  end.
+
+Definition p_parents (c : command) (pre : entries) (ok : bool) (mid : entries) : string :=
+  match p_parents_frame c pre mid with
+  | "" => p_parents_exist c pre ok mid
+  | k => k
   end.
 
 (* P for rejection: a command is rejected exactly if its working
